@@ -9,7 +9,8 @@ Mirrors, as the code is:
     which guard and passed in which POSITION of which functor's data tuple, for the three reference
     phases and for phase-locked chemicals;  `Functor.from_args` (= `dict(zip(params, data))`);
   * `PhaseTPHandle.__call__` (dispatch on the phase; the class switch `force_gas_critical_phase`: `effPhase`, `Hforce`);
-  * `_init_data`: `Sfus = Hfus / Tm if (Tm and Hfus is not None) else None` on the stored values;
+  * `_init_data`: `Sfus = Hfus / Tm if (Tm and Hfus is not None) else None` on the stored values; the `Tm` / `Hfus`
+    setters keeping a derived Sfus consistent (`sfusAfterEdit`, fix C07-5);
   * `IdealTPMixtureModel`, `IdealTMixtureModel`, `IdealEntropyModel` (thermosteam/mixture/ideal_mixture_model.py),
     `Mixture.S` (empty stream → 0), `Mixture.xH/xS/xCn`, and `Mixture.H/S` with `include_excess_energies`
     (`mixtureHx`, `mixtureSx`; the per-chemical excess values are parameters).
@@ -230,6 +231,23 @@ def Energies.Sforce (E : Env α) (force : Bool) (Tc : α) (w : Energies α) (ph 
 values (`self._Hfus`, `self._Tm`: constructor argument or database value). -/
 def initSfus (E : Env α) (Hfus Tm : Option α) : Option α :=
   if truthy E Tm then Hfus.bind fun h => Tm.bind fun t => some (h / t) else none
+
+/-- The `Tm` and `Hfus` setters (after fix C07-5): an entropy of fusion that is the derived one (`None`, or exactly
+`Hfus / Tm` of the values before the edit) follows the edit; a value the user set independently through the `Sfus`
+setter is kept.  Arguments: the stored Sfus, Hfus, Tm before the edit and Hfus, Tm after it. -/
+def sfusAfterEdit (E : Env α) (sfusOld HfusOld TmOld HfusNew TmNew : Option α) : Option α :=
+  let derived : Bool :=
+    match sfusOld with
+    | none => true
+    | some s =>
+      match (if truthy E TmOld then TmOld else none), HfusOld with
+      | some t, some h => E.isZero (s - h / t)
+      | _, _ => false
+  if derived then
+    match initSfus E HfusNew TmNew with
+    | some x => some x
+    | none => sfusOld
+  else sfusOld
 
 /-! ### Mixture models -/
 
